@@ -323,7 +323,13 @@ namespace sqf::runtime
                     { // it is not
                         // Lookup inherited node and replace it
                         auto nav = lookup_in_logical(inherited);
-                        replaced.id_parent_inherited = nav.m_index;
+                        // ... unless the new base is, or inherits from, the class itself:
+                        // that would make the inherited-parent chain cyclic and every
+                        // lookup of a missing entry below it would never return.
+                        if (!nav.inherits_from_id(replaced.id))
+                        {
+                            replaced.id_parent_inherited = nav.m_index;
+                        }
                     }
 
                     // Return found container as confignav
@@ -344,6 +350,20 @@ namespace sqf::runtime
                 auto& container = m_confighost.m_containers.at(m_index);
                 container.push_back(target, config::invalid_id);
             }
+        }
+        // true if this node or one of its inherited parents is the container with the given id
+        bool inherits_from_id(size_t id) const
+        {
+            size_t index = m_index;
+            while (index != config::invalid_id)
+            {
+                if (index == id)
+                {
+                    return true;
+                }
+                index = m_confighost.m_containers.at(index).id_parent_inherited;
+            }
+            return false;
         }
         bool has_inherited_with_name(std::string target) const
         {
